@@ -70,12 +70,14 @@ static void ik_crypt(const Args &a) {
     bytes_t n = a.hex("n"), ad = a.hex("ad"), in = a.hex("in");
     InBuf nb(n), adb(ad, nie);
     bytes_t before((uint8_t *)m, (uint8_t *)m + io.size);
+    obj_protect(id, true);          // the pre-computed key is a const parameter of encrypt and decrypt
     if (!dec) {
         OutBuf out(in.size() + 16, (unsigned)a.num("align"));
         InBuf ib(in, nie && !inplace); const unsigned char *ip = ib.p;
         if (inplace) { out.load(in); ip = out.p; }
         size_t clen = (size_t)-1;
         io.enc(out.p, &clen, ip, in.size(), adb.p, adb.n, nb.p, m);
+        if (id < 1000) obj_protect(id, false);
         reg_store(a, out.get(in.size() + 16));
         Ev ev("isapkey.enc"); ev.s("scheme", sc).n("obj", id).b("n", n).b("ad", ad).b("in", in).n("clen", (long long)clen)
             .b("out", out.get(in.size() + 16)).n("guard", out.guards_ok());
@@ -87,6 +89,7 @@ static void ik_crypt(const Args &a) {
         if (inplace) { out.load(in); ip = out.p; }
         size_t mlen = (size_t)-1;
         int ret = io.dec(out.p, &mlen, ip, in.size(), adb.p, adb.n, nb.p, m);
+        if (id < 1000) obj_protect(id, false);
         bytes_t pt = out.get(cap); bool z = true; for (size_t i = 0; i < pt.size(); ++i) if (pt[i]) z = false;
         Ev ev("isapkey.dec"); ev.s("scheme", sc).n("obj", id).b("n", n).b("ad", ad).b("in", in).n("ret", ret < 0 ? -1 : ret)
             .n("mlen", mlen == (size_t)-1 ? -1 : (long long)mlen).b("out", pt).n("allzero", z).n("guard", out.guards_ok());
